@@ -6,7 +6,14 @@ from harness.props.c12 import steady_band, LAT
 class C13(scen.PairProp):
     id = "C13"
     lean_module = "Wheatley.Props.C13"
-    theorems = []
+    theorems = ["Wheatley.C13.inertia1_line_invariant",
+                "Wheatley.C13.inertia1_strike",
+                "Wheatley.C13.exp_neg9",
+                "Wheatley.C13.blunder_weight",
+                "Wheatley.C13.blunder_dropped",
+                "Wheatley.C13.blunder_harmless",
+                "Wheatley.C13.threshold_value",
+                "Wheatley.C13.unexpected_stroke_ignored"]
     level_text = ("theorems: with inertia 1 a data point never changes start or interval (the early return), so the "
                   "line after row 0 is independent of every later strike; exp(-9) < 1/1000 (proved for the real "
                   "exponential), hence a strike 3 or more places from its slot gets a weight below the rejection "
